@@ -1,7 +1,7 @@
 """C12 - stopping the server reaps its children and every parent finds out."""
 import ast
 
-from ..astutil import (AnalysisError, dotted, calls_in, last_attr, receiver, norm, is_name, walk_local, is_self_attr,
+from ..astutil import (facts_at, AnalysisError, dotted, calls_in, last_attr, receiver, norm, is_name, walk_local, is_self_attr,
                        loc, short, parent_map, names_in)
 from ..cfg import is_flow, path_str
 from .c03 import split_regions, calls_in_stmts
@@ -44,6 +44,12 @@ def reap_loop_ok(ctx, func, loop, what):
     fb = [st for st in body if isinstance(st, ast.If) and 'is_alive()' in norm(st.test) and not norm(st.test).startswith('not ')
           and any((dotted(c.func) or '') == 'os.kill' and 'SIGTERM' in norm(c) and norm(c.args[0]) == f'{var}.pid' for x in st.body for c in calls_in(x))]
     ctx.check(rule, f'{F}: survivors get SIGTERM', bool(fb), F, f'reap-no-sigterm-fallback[{what}]', 'a child that survives terminate() is not signalled', where=loc(func, loop))
+
+
+def _stmt_of(pm, node):
+    while node in pm and not isinstance(node, ast.stmt):
+        node = pm[node]
+    return node
 
 
 def sigterm_handler(ih):
@@ -189,8 +195,10 @@ def run(ctx):
               'when the backend dies without reporting (SIGKILL) nobody closes the server\'s copy of the data socket: the parent blocks forever waiting for the result',
               where=loc(cr, cr.node))
     # _release_remote_ctrl: after the child is dead the control thread is told to stop
-    rel = [st for st in stmts if isinstance(st, ast.If) and '_release_remote_ctrl' in norm(st.test)]
-    ok = bool(rel) and any(last_attr(c) == 'foreign_raise' and 'GracefulExitError' in norm(c) for x in rel[0].body for c in calls_in(x)) and \
-        any(last_attr(c) == 'join' for x in rel[0].body for c in calls_in(x))
+    # the statements guarded by `_release_remote_ctrl` being true, wherever in a (possibly nested / inverted) conditional the flag is tested
+    pmt = parent_map(term.node)
+    guarded_calls = [c for st in stmts for c in calls_in(st)
+                     if ('_release_remote_ctrl', True) in facts_at(pmt, _stmt_of(pmt, c))]
+    ok = any(last_attr(c) == 'foreign_raise' and 'GracefulExitError' in norm(c) for c in guarded_calls) and any(last_attr(c) == 'join' for c in guarded_calls)
     ctx.check('R4', 'RemoteWorker.terminate[server]: _release_remote_ctrl stops and joins the remote control thread', ok, 'RemoteWorker.terminate', 'ctrl-thread-not-released',
               'the remote control thread is not stopped on server shutdown', where=loc(term, term.node))
